@@ -15,6 +15,7 @@ import Sqfs.Proofs.IdTable
 import Sqfs.Proofs.Finish
 import Sqfs.Proofs.Numbering
 import Sqfs.Proofs.C03FsDir
+import Sqfs.Proofs.C03Inode
 namespace Sqfs.C03
 open Sqfs.Consts
 
@@ -507,6 +508,33 @@ theorem listing_strictly_sorted (names : List C03FsDir.Bytes) :
 
 end Sorted
 
+/-! ## basic / extended file inodes (`inode.c`) -/
+section Inode
+open Sqfs.C03Inode
+
+/--
+The thresholds of `sqfs_inode_make_basic` / `sqfs_inode_set_file_size` / `sqfs_inode_set_file_block_start` /
+`sqfs_inode_set_xattr_index` and the sparse accounting of `process_completed_block`, for **every** sequence of these
+operations on a file inode starting from a fresh one, with arguments of any size the C types admit: each operation
+changes exactly the value it is meant to change, as a reader of the written inode sees it (`view`: a basic inode means
+sparse 0, one link, no xattr) — no value is ever narrowed by the switch to the basic, all-u32 layout (a size or start of
+4 GiB or more, a sparse count, an xattr index keep the inode extended).
+-/
+theorem file_inode_values_exact (i : FileInode) (h : WF i) (size loc idx off x n : Nat) :
+    (WF (setFileSize i size) ∧ view (setFileSize i size) = ((view i).1, size, (view i).2.2)) ∧
+    (WF (setBlockStart i loc) ∧ view (setBlockStart i loc) = (loc, (view i).2)) ∧
+    (WF (setFragLocation i idx off) ∧ view (setFragLocation i idx off) =
+      ((view i).1, (view i).2.1, (view i).2.2.1, (view i).2.2.2.1, idx, off, (view i).2.2.2.2.2.2)) ∧
+    (WF (setXattr i x) ∧ view (setXattr i x) =
+      ((view i).1, (view i).2.1, (view i).2.2.1, (view i).2.2.2.1, (view i).2.2.2.2.1, (view i).2.2.2.2.2.1, x)) ∧
+    (WF (addSparse i n) ∧ view (addSparse i n) =
+      ((view i).1, (view i).2.1, ((view i).2.2.1 + n) % 18446744073709551616, (view i).2.2.2)) ∧
+    (WF (makeBasic i) ∧ view (makeBasic i) = view i) ∧ (WF (makeExtended i) ∧ view (makeExtended i) = view i) :=
+  ⟨setFileSize_spec i size h, setBlockStart_spec i loc h, setFragLocation_spec i idx off h, setXattr_spec i x h,
+   addSparse_spec i n h, makeBasic_spec i h, makeExtended_spec i h⟩
+
+end Inode
+
 /-! ## non-vacuity: the hypotheses above are satisfiable by non-trivial instances -/
 section Examples
 open Sqfs.DirWriter Sqfs.MetaWriter Sqfs.IdTable
@@ -552,6 +580,12 @@ example : exportTable [(3, 0x20040), (1, 0x20), (3, 0x20040)] 4 0x30000 = [0x20,
 
 /-- names arrive unsorted, one twice: sorted, unique, link count 2 + 3 -/
 example : C03FsDir.addAll {} [[98], [97, 0xC3], [97], [98]] = ⟨[[97], [97, 0xC3], [98]], 5⟩ := by decide
+
+/-- a fresh inode is well formed; 4 GiB does not fit the basic inode, 4 GiB - 2 does -/
+example : C03Inode.WF C03Inode.fresh ∧
+    C03Inode.setFileSize C03Inode.fresh 4294967296 = .ext 0 4294967296 0 1 0 0 0xFFFFFFFF ∧
+    C03Inode.setFileSize (.ext 0 4294967296 0 1 0 0 0xFFFFFFFF) 4294967294 = .basic 0 0 0 4294967294 :=
+  ⟨C03Inode.wf_fresh, by decide, by decide⟩
 
 /-- a 5-byte table at file offset 100: one block of 5 + 2 bytes, its location 100, the list starts at 107 -/
 example : (writeTable toyCodec 100 [1, 2, 3, 4, 5]).locs = [100] ∧ (writeTable toyCodec 100 [1, 2, 3, 4, 5]).start = 106 := by
